@@ -22,7 +22,7 @@ func drawBatchSize(rc *RunCtx) int {
 		if rc.Tier == "thorough" {
 			return 41 + ch.Pick(472, 0)
 		}
-		return 41 + ch.Pick(120, 0)
+		return 41 + ch.Pick(300, 0)
 	}
 }
 
